@@ -70,7 +70,7 @@ def lib_point(P):
 
 
 QUICK = ["ec13_11", "ec17_13", "ec23_19", "ec67_19h4"]
-ALL = list(PARAMS)
+ALL = [c for c in PARAMS if c != "ec251_257"]     # the 257-point curve is only used where the order's octet length matters (C03 challenge layout)
 SCHNORR_QUICK = ["ec19_23", "ec23_19"]          # p % 4 == 3
 SCHNORR_ALL = ["ec19_13", "ec19_23", "ec23_19", "ec23_31", "ec67_19h4", "ec67_29h2"]
 
